@@ -56,7 +56,7 @@ PROPS = {
         "assumptions": ["Linux/ext4 syscall semantics as observed through an independent lstat snapshot"],
     },
     "C09": {
-        "suites": [walk.WalkSuite, pure.PathFn],
+        "suites": [walk.WalkSuite, walk.SubWalkSuite, pure.PathFn],
         "assumptions": ["os.ReadDir/filepath.WalkDir order = bytewise name order per directory (exercised by suite walk)",
                         "'stat matches lstat/readlink/listxattr' is an OS fact: decided by correspondence with an independent snapshot only"],
     },
